@@ -169,6 +169,9 @@ def random_object_spec(rng, cls=None, n=None, nfeat=None, degenerate=False):
         spec['float_dtype'] = 'float32'
     if rng.random() < 0.3:
         spec['extra_column'] = True
+    if rng.random() < 0.15:      # user-chosen sentinels for missing / rare values
+        spec['params']['str_nan'] = 'MISSING'
+        spec['params']['str_default'] = 'RARE'
     return spec
 
 
@@ -264,6 +267,7 @@ def row_variants(rng, X):
 def _new(kind, seed, spec):
     return E.History(f'{kind}-{seed}', {'driver': 'est_gen.gen_case', 'args': {'kind': kind, 'seed': seed}, 'cls': spec['cls'],
                                         'rankings': {f: list(d['order']) for f, d in spec['features'].items() if d.get('order') is not None},
+                                        'str_nan': spec['params'].get('str_nan'), 'str_default': spec['params'].get('str_default'),
                                         'spec_summary': {'cls': spec['cls'], 'n': len(spec['y']), 'features': {f: d['kind'] for f, d in spec['features'].items()},
                                                          'params': spec['params']}})
 
@@ -381,8 +385,9 @@ def _edit_candidates(rng, o, f, X):
     """(mode, discarded, kept, valid_for_C17) proposals for feature f."""
     vo = o.values_orders[f]
     leaders = list(vo)
-    nan_here = E.STR_NAN in leaders
-    non_nan = [v for v in leaders if not (isinstance(v, str) and v == E.STR_NAN)]
+    str_nan = getattr(o, 'str_nan', None) or E.STR_NAN
+    nan_here = str_nan in leaders
+    non_nan = [v for v in leaders if not (isinstance(v, str) and v == str_nan)]
     out = []
     quanti = f in o.quantitative_features
     ordinal = f in getattr(o, 'ordinal_features', [])
